@@ -327,7 +327,16 @@ pub fn run(sc: &Scenario) -> Outcome {
         counters.add("queue.polls", out.stats.polls);
         inter.push_str(&format!("{}:{}:{};", out.stats.background_steps_before_message, out.stats.message_preempted_background, out.stats.polls));
         if let Some(p) = out.panic {
-            return Outcome { violation: Some(("server-panic".into(), format!("server thread panicked in lifetime {i}: {p}"))), counters, interleaving: 0 };
+            // where it panicked (recorded by the panic hook) identifies a recorded finding
+            let loc = LAST_PANIC_LOCATION.lock().map(|l| l.clone()).unwrap_or_default();
+            let mixin = sc.project.files.values().any(|t| t.contains("mixin "))
+                || sc.events.iter().any(|(_, e)| format!("{e:?}").contains("mixin "));
+            let class = if loc.contains("conv/utils.rs") && p.contains("Option::unwrap()") && mixin {
+                "server-panic:modport-member-of-mixed-in-variable"
+            } else {
+                "server-panic"
+            };
+            return Outcome { violation: Some((class.into(), format!("server thread panicked in lifetime {i}: {p} at {loc}"))), counters, interleaving: 0 };
         }
         published = out.published;
         if i + 1 < nsessions
@@ -539,11 +548,18 @@ fn minimise(sc: &Scenario, class: &str) -> Scenario {
     best
 }
 
+static LAST_PANIC_LOCATION: std::sync::Mutex<String> = std::sync::Mutex::new(String::new());
+
 fn main() {
     let args: Vec<String> = std::env::args().collect();
     std::panic::set_hook(Box::new(|info| {
-        if info.payload().downcast_ref::<async_channel::StopToken>().is_none() && std::env::var("LSSIM_VERBOSE").is_ok() {
-            eprintln!("panic: {info}");
+        if info.payload().downcast_ref::<async_channel::StopToken>().is_none() {
+            if let (Some(l), Ok(mut g)) = (info.location(), LAST_PANIC_LOCATION.lock()) {
+                *g = format!("{}:{}", l.file(), l.line());
+            }
+            if std::env::var("LSSIM_VERBOSE").is_ok() {
+                eprintln!("panic: {info}");
+            }
         }
     }));
     if args.len() >= 3 && args[1] == "--replay" {
